@@ -143,7 +143,7 @@ func eleEnumerate(s *Shard, prop string, fn func(c *Case, cfg eleCfg)) {
 		for j := 0; j < g.m; j++ {
 			menus = append(menus, 2)
 		}
-		menus = append(menus, len(ks), len(eleDists), 2)
+		menus = append(menus, len(ks), len(eleDists), 2, 2)
 		dev := 2
 		if g.n*g.m >= 10 {
 			dev = 1
@@ -174,6 +174,13 @@ func eleEnumerate(s *Shard, prop string, fn func(c *Case, cfg eleCfg)) {
 				cfg.K = ks[o[2*g.m]][:g.m]
 				cfg.Dist = eleDists[o[2*g.m+1]]
 				cfg.Extra = o[2*g.m+2] == 1
+				if o[2*g.m+3] == 1 {
+					// considered alternatives listed in descending id order (choseToMake and knownAlternatives)
+					cfg.Order = make([]int, g.n)
+					for i := range cfg.Order {
+						cfg.Order[i] = g.n - 1 - i
+					}
+				}
 				fn(&Case{Prop: prop, Kind: "electre", Req: eleRequest(cfg)}, cfg)
 			}
 		})
@@ -213,9 +220,40 @@ func eleVetoGrid(s *Shard, prop string, fn func(c *Case, cfg eleCfg)) {
 	}
 }
 
+// eleHuge: values around 1e18 with thresholds of a few hundred (differences are exact, sums value+threshold are not).
+func eleHuge(s *Shard, prop string, fn func(c *Case, cfg eleCfg)) {
+	vals := []float64{1e18, 1e18 + 256, 1e18 + 512, 1e18 + 1024}
+	for _, n := range []int{2, 3} {
+		dims := make([]int, n)
+		for i := range dims {
+			dims[i] = len(vals)
+		}
+		Product(dims, func(idx []int) {
+			if !s.Take() {
+				return
+			}
+			v := make([][]float64, n)
+			for i := range v {
+				v[i] = []float64{vals[idx[i]], float64(i)}
+			}
+			for _, t := range []thr{{Q: 100, P: 200, V: 250}, {Q: 128, P: 512, V: 1024}, {P: 256}} {
+				for _, typ := range []string{"gain", "cost"} {
+					cfg := eleCfg{N: n, Vals: v, Types: []string{typ, "gain"}, Thr: []thr{t, {}}, K: []float64{3, 1}, Dist: eleDists[0]}
+					fn(&Case{Prop: prop, Kind: "electre", Req: eleRequest(cfg)}, cfg)
+				}
+			}
+		})
+	}
+}
+
 func c05Run(s *Shard) {
 	cur = s
 	sampled := 0
+	eleHuge(s, "C05", func(c *Case, cfg eleCfg) {
+		s.Evals++
+		s.Begin(c)
+		s.Report(c05Check(c))
+	})
 	eleVetoGrid(s, "C05", func(c *Case, cfg eleCfg) {
 		s.Evals++
 		s.Begin(c)
